@@ -58,14 +58,13 @@ OppositeRefuted ==
         ELSE {"C09.RejectedClientError", "C09.RejectedNoLeaf"} \subseteq Verdict(last.c, roots, opp)
 
 \* every mutant model is refuted somewhere in the table, in some generation
-MutantsRefuted ==
-    \A m \in Mutants : \E g \in Gens : \E c \in Cases : Verdict(c, Schedule[g], MAnswer(m, c, Schedule[g])) # {}
-\* ... every formula is load-bearing: some mutant violates it
+RefutedBy == [m \in Mutants |->
+                UNION {Verdict(CaseSeq[k], Schedule[g], MAnswer(m, CaseSeq[k], Schedule[g])) : g \in Gens, k \in 1..NCases}]
+MutantsRefuted == \A m \in Mutants : RefutedBy[m] # {}
+\* ... and every formula is load-bearing: some mutant violates it
 Formulas == {"C09.AcceptedStatus", "C09.AcceptedSCT", "C09.LoggedBytes", "C09.IssuerKeyHash",
              "C09.IssuersAreTheChain", "C09.RejectedClientError", "C09.RejectedNoLeaf"}
-FormulasUsed ==
-    \A f \in Formulas : \E m \in Mutants : \E g \in Gens : \E c \in Cases :
-        f \in Verdict(c, Schedule[g], MAnswer(m, c, Schedule[g]))
+FormulasUsed == Formulas \subseteq UNION {RefutedBy[m] : m \in Mutants}
 \* every root is known in some generation and unknown in another, except the
 \* one that is never known
 ScheduleCovers ==
@@ -74,5 +73,6 @@ ScheduleCovers ==
     /\ \E g \in Gens : g > 1 /\ Schedule[g - 1] \ Schedule[g] # {}     \* a removal
     /\ \E g \in Gens : g > 1 /\ Schedule[g] \ Schedule[g - 1] # {}     \* an addition
 
+ASSUME PrintT(<<"REFUTED-BY", RefutedBy>>)
 ASSUME MutantsRefuted /\ FormulasUsed /\ ScheduleCovers
 =============================================================================
